@@ -81,6 +81,12 @@ impl Ctx {
     pub fn with_threads<T: Send>(&mut self, _n: usize, f: impl FnOnce() -> T + Send) -> T {
         f()
     }
+    /// a precondition of the *harness* (not a claim about the library): if it fails the case is inconclusive
+    pub fn require(&mut self, ok: bool, what: &str) {
+        if !ok {
+            symrt::not_encodable(&format!("harness precondition failed: {}", what));
+        }
+    }
     pub fn symbolic(&self) -> bool {
         self.mode == Mode::Symbolic
     }
